@@ -129,7 +129,8 @@ def random_action(rnd, names, allow_copy):
     if r < 0.74: return A("OpAssignVar", n, rnd.choice(names), i=rnd.choice([1, 2]))
     if r < 0.80: return A("FieldAssign", n)
     if r < 0.86: return A("TupleElemAssign", n)
-    if r < 0.91: return A("Destructure", n, m)
+    if r < 0.89: return A("Destructure", n, m)
+    if r < 0.91: return A("DestructureTooMany", n, m)
     if r < 0.95: return A("DestructureVar", n, m, k)
     return A("Eval", n)
 
